@@ -171,6 +171,21 @@ func (fr *faultRun) witness() string {
 	return ""
 }
 
+// settle waits until the client's writer has got rid of what it can (the queue is empty, or the broker has
+// stopped reading and the queue does not shrink any more), so that the next step finds the broker in the
+// state the sequence is about (e.g. a processor parked on a full ring) rather than on its way there
+func (fr *faultRun) settle(f *fClient) {
+	last, stable := len(f.wq), 0
+	for i := 0; i < 200 && stable < 15; i++ {
+		time.Sleep(2 * time.Millisecond)
+		if n := len(f.wq); n == last {
+			stable++
+		} else {
+			last, stable = n, 0
+		}
+	}
+}
+
 // ping: the client must get a PINGRESP (everything else it receives meanwhile is bulk traffic)
 func (fr *faultRun) ping(f *fClient) string {
 	if err := fr.write(f, []byte{0xc0, 0}, time.Second); err != nil {
@@ -266,9 +281,10 @@ func runFaults(sc *fScenario) (string, string) {
 			}
 			for k := 0; k < 5; k++ {
 				if err := fr.write(f, bigPublish(topic, 6000, byte('a'+k)), 250*time.Millisecond); err != nil {
-					break // the broker has stopped reading: flow control, as intended
+					break
 				}
 			}
+			fr.settle(f)
 		case "stopreading":
 			atomic.StoreInt32(&f.reading, 0)
 			time.Sleep(5 * time.Millisecond)
@@ -288,6 +304,7 @@ func runFaults(sc *fScenario) (string, string) {
 					}
 				}
 			}
+			fr.settle(f)
 		case "cut":
 			f.cut = true
 			f.c.Close()
@@ -565,6 +582,7 @@ func cmdRace(a Args) {
 func cmdFaults(a Args) {
 	res := newResult()
 	maxKeptMismatches = 40
+	own := a.str("own", "")
 	err := readLines(a, func(line []byte) error {
 		var sc fScenario
 		if err := json.Unmarshal(line, &sc); err != nil {
@@ -577,6 +595,16 @@ func cmdFaults(a Args) {
 		res.Evaluations++
 		res.Steps += len(sc.H)
 		d, tag := runFaults(&sc)
+		if d != "" && tag != "INFRA" && own != "" && tag != own {
+			// an observable of another property: recorded (its own check deals with it), not reproduced, no early stop
+			res.Counts["foreign"]++
+			if res.Counts["foreign"] > 25 {
+				res.Counts["skipped_after_violation"]++
+				return nil
+			}
+			res.mismatch(Mismatch{What: d, Tag: tag})
+			return nil
+		}
 		if d != "" && tag != "INFRA" {
 			// liveness observations must reproduce
 			d2, _ := runFaults(&sc)
